@@ -251,6 +251,37 @@ func checkC19(p *Prog, r *Report) {
 	}
 	_ = roundSec
 	r.Check("R4", "relative-end-time-seconds", okRel, "", "the remaining duration (end time minus now) is rounded to a second")
+	c18CustomJSONGuards(p, r, "R5")
+	r.Rule("R6", "the decimal count of a scaled number is read off the shortest exact decimal rendering of the value: strconv.FormatFloat with format 'f', precision -1 and the bit size of the value's own type (64 for a float64 that was not widened from float32)")
+	nFmt := 0
+	for _, fn := range p.RepoFns("model", "spine", "util") {
+		idx := 0
+		// only the constructors of scaled numbers: other renderings of floats are free to choose their format
+		if fn.Signature.Results().Len() != 1 || !isNamed(derefType(fn.Signature.Results().At(0).Type()), "model", "ScaledNumberType") {
+			continue
+		}
+		forEachCall(fn, func(site ssa.CallInstruction) {
+			callee := site.Common().StaticCallee()
+			if callee == nil || fnPkgPath(callee) != "strconv" || callee.Name() != "FormatFloat" {
+				return
+			}
+			idx++
+			nFmt++
+			args := site.Common().Args
+			want := int64(64)
+			if cv, ok := args[0].(*ssa.Convert); ok {
+				if b, ok := cv.X.Type().Underlying().(*types.Basic); ok && b.Kind() == types.Float32 {
+					want = 32
+				}
+			}
+			fmtc, okF := constInt(args[1])
+			prec, okP := constInt(args[2])
+			bits, okB := constInt(args[3])
+			ok := okF && okP && okB && fmtc == 'f' && prec == -1 && bits == want
+			r.Check("R6", fmt.Sprintf("%s|FormatFloat#%d", FnName(fn), idx), ok, p.InstrPos(site), fmt.Sprintf("format %q precision %d bitSize %d (value is a %d-bit float): a smaller bit size renders the nearest float32, which has fewer decimals than the value", rune(fmtc), prec, bits, want))
+		})
+	}
+	r.Floor("R6", "FormatFloat calls", nFmt, 1)
 	r.Assumes("time.Format/ParseInLocation and the period library are inverse for the layouts and values in range — this is the undecided bulk of the property")
 }
 
